@@ -430,6 +430,17 @@ class CanBehaveLikeAVariable(Selectable[T], ABC):
     def _type__(self):
         return self._var_._type_ if self._var_ else None
 
+    def _is_a_condition_of_its_evaluation_parent_(self) -> bool:
+        """
+        :return: Whether this use of the expression is a condition (its truth value matters): an operand of a logical
+         operator, or the whole condition of a query. The expression can be shared by several queries and has only one
+         structural parent, hence the query that evaluates it is asked, not the structure.
+        """
+        parent = self._parent_
+        return isinstance(parent, LogicalOperator) or (
+            isinstance(parent, QueryObjectDescriptor) and parent._child_ is self
+        )
+
     def __getitem__(self, key) -> CanBehaveLikeAVariable[T]:
         return Index(self, key)
 
@@ -996,19 +1007,13 @@ class Variable(CanBehaveLikeAVariable[T]):
             # the truth value of a bound variable only matters where the variable itself is used as a condition,
             # as an operand (e.g., of a comparison) a falsy value like 0 is a value like any other.
             is_false = False
-            if (
-                isinstance(self._parent_, LogicalOperator)
-                or self is self._conditions_root_
-            ):
+            if self._is_a_condition_of_its_evaluation_parent_():
                 is_false = not bool(sources[self._id_])
                 self._is_false_ = is_false
             yield OperationResult(sources, is_false, self)
         elif self._domain_:
             # where the variable itself is used as a condition, the truth value of every value of its domain matters.
-            is_a_condition = (
-                isinstance(self._parent_, LogicalOperator)
-                or self is self._conditions_root_
-            )
+            is_a_condition = self._is_a_condition_of_its_evaluation_parent_()
             for v in self._domain_:
                 value = HashedValue(v)
                 is_false = False
@@ -1019,10 +1024,7 @@ class Variable(CanBehaveLikeAVariable[T]):
         elif self._should_be_instantiated_:
             # the truth value of the result of a call only matters where the call itself is used as a condition, as an
             # operand (e.g., of a comparison) a falsy result like 0 is a value like any other.
-            is_a_condition = (
-                isinstance(self._parent_, LogicalOperator)
-                or self is self._conditions_root_
-            )
+            is_a_condition = self._is_a_condition_of_its_evaluation_parent_()
             yield from self._instantiate_using_child_vars_and_yield_results_(
                 sources, is_a_condition
             )
@@ -1180,10 +1182,7 @@ class DomainMapping(CanBehaveLikeAVariable[T], ABC):
 
         # the role of this use of the expression; a nested evaluation of the same expression (it can be used more than
         # once) changes the evaluation parent while this evaluation is suspended.
-        is_a_condition = (
-            isinstance(self._parent_, LogicalOperator)
-            or self is self._conditions_root_
-        )
+        is_a_condition = self._is_a_condition_of_its_evaluation_parent_()
 
         if self._id_ in sources:
             # an expression that is used more than once is already bound, its truth value matters if it is used as a
